@@ -717,9 +717,11 @@ def gen_dialog_case(g, tier, c17=None):
 
 def gen_tcp_case(g, tier):
     nb = g.rint(1, 3)
-    w = World(g, nlisten=1, nback=nb, names="svc.test", rcvd=True)
+    rcvd = g.chance(0.7)
+    w = World(g, nlisten=1, nback=nb, names="svc.test", rcvd=rcvd)
     w.routes = []
     w.listeners[0].proto = "TCP"
+    g.count("tcp_case_rcvd" if rcvd else "tcp_case_no_received")
     c = Case(g, w)
     ops = c.ops
     lst = w.listeners[0]
@@ -727,7 +729,8 @@ def gen_tcp_case(g, tier):
     conns = []
     for k in range(nconn):
         conns.append({"id": k + 1, "port": 30000 + g.rint(0, 20000) + k,
-                      "sentby": g.pick([("10.1.1.1", 5060), ("10.1.1.1", 5060), ("127.0.0.1", None), ("192.168.7.%d" % k, 5060 + k)]),
+                      "sentby": g.pick([("10.1.1.1", 5060), ("10.1.1.1", 5060), ("127.0.0.1", None), ("192.168.7.%d" % k, 5060 + k),
+                                        ("ua1.test", 5060), ("ua2.test", None)]),
                       "rport": g.chance(0.6)})
     pending = []     # transactions awaiting responses: (conn, method, via_as_relayed, dialog, got_final)
     steps = g.rint(4, 20 * nconn if tier != "quick" else 5 * nconn)
@@ -762,7 +765,7 @@ def gen_tcp_case(g, tier):
         m = dialog_msg(c, g, method, "sip:svc.test", d, True, with_ttag=False, vias=[via])
         ops.append("pipe raw p=0 from=%s peer=%s port=%d tcp=%d rx=0 msg=%s # spec=C03 %s" % (
             lst.tok(), hx("127.0.0.1"), cn["port"], cn["id"], hx(m), expect_dest("B", None, w.backends[0])))
-        pending.append({"conn": cn, "method": method, "via": via.stamped("127.0.0.1", cn["port"]), "d": d})
+        pending.append({"conn": cn, "method": method, "via": via.stamped("127.0.0.1", cn["port"]) if rcvd else via, "d": d})
         g.count("tcp_requests")
     ops.append("pipe state p=0")
     ops.append("pipe end")
